@@ -337,6 +337,7 @@ pub fn engine(rep: &mut Report, focus: &str, n: usize, seed: u64, thorough: bool
         crate::scope::prefix_scope(rep, &mut rng, thorough);
         crate::scope::literal_scope(rep, &mut rng, thorough);
         crate::scope::deep_first_scope(rep);
+        crate::scope::dense_candidate_scope(rep, "C04");
     }
     if focus == "C01" {
         crate::scope::run_spec_probes(rep);
@@ -344,6 +345,7 @@ pub fn engine(rep: &mut Report, focus: &str, n: usize, seed: u64, thorough: bool
     }
     if matches!(focus, "C01" | "C02" | "C03") {
         crate::scope::size_scope(rep, focus);
+        crate::scope::nested_look_literal_scope(rep, focus);
     }
     if matches!(focus, "C01" | "C02" | "C03" | "C05") {
         crate::scope::loop_scope(rep, &mut rng, focus, thorough);
@@ -639,8 +641,81 @@ pub fn c19(rep: &mut Report, n: usize, seed: u64, thorough: bool) {
 /// `^E$` for generated class expressions E, on every character E mentions, their case partners,
 /// neighbours of range ends, a few fixed probes, and the strings E mentions (+ single-edit variants);
 /// the expected answer comes from the ES specification model (`esfind` lines).
+/// Class RANGES under `i` around every cased code point: `[a-b]` for short intervals that start at, end at or
+/// straddle a cased character (the closure of an interval walks the fold table in strides; single characters
+/// never exercise the walk), against the ES specification model, probing every character of the interval, its
+/// simple case mappings and their neighbours.
+fn c12_fold_intervals(rep: &mut Report, rng: &mut Rng, thorough: bool) {
+    let single = |it: &mut dyn Iterator<Item = char>| -> Option<u32> {
+        let a = it.next()?;
+        if it.next().is_some() {
+            None
+        } else {
+            Some(a as u32)
+        }
+    };
+    let maps = |c: u32| -> Vec<u32> {
+        let mut v = vec![c];
+        if let Some(ch) = char::from_u32(c) {
+            if let Some(l) = single(&mut ch.to_lowercase()) {
+                v.push(l);
+            }
+            if let Some(u) = single(&mut ch.to_uppercase()) {
+                v.push(u);
+            }
+        }
+        v
+    };
+    let mut flags = Flags::default();
+    flags.i = true;
+    flags.u = true;
+    for c in 0x41u32..0x1F000 {
+        if maps(c).iter().all(|x| *x == c) {
+            continue;
+        }
+        if !thorough && c >= 0x250 && !rng.chance(1, 8) {
+            continue;
+        }
+        for (a, b) in [(c, c + 1), (c, c + 2), (c, c + 3), (c - 1, c), (c - 2, c), (c - 1, c + 1), (c - 3, c + 1)] {
+            if (a..=b).any(|x| char::from_u32(x).is_none()) {
+                continue;
+            }
+            let cls = Node::Class(false, vec![ast::ClassItem::R(a, b)]);
+            let node = Node::Cat(vec![Node::Bol, cls.clone(), Node::Eol]);
+            let pat = ast::pattern_string(&node, flags);
+            let Ok(re) = compile(&pat, "iu", false) else {
+                rep.violation("impl-vs-spec:C08", format!("valid class pattern rejected: /{}/iu", pat), pat.clone());
+                continue;
+            };
+            let mut probes: BTreeSet<u32> = BTreeSet::new();
+            for x in a..=b {
+                for m in maps(x) {
+                    for mm in maps(m) {
+                        probes.insert(mm);
+                        probes.insert(mm + 1);
+                        probes.insert(mm.saturating_sub(1));
+                    }
+                }
+            }
+            for h in probes {
+                let Some(ch) = char::from_u32(h) else { continue };
+                let hay = ch.to_string();
+                let r = run_exec(&re, Exec::Bt, &hay, 0, 1);
+                let first = r.text.split(' ').next().unwrap_or("").to_string();
+                rep.count("fold-interval");
+                rep.tie(
+                    format!("esfind {} {} {} 0", flags.to_token(), ast::ast_string(&node), ast::cps_hex(&[h])),
+                    if first.is_empty() { "none".into() } else { format!("m {}", first) },
+                );
+            }
+            rep.case(&format!("/{}/iu", pat), true);
+        }
+    }
+}
+
 pub fn c12_classes(rep: &mut Report, n: usize, seed: u64, thorough: bool) {
     let mut rng = Rng::new(seed);
+    c12_fold_intervals(rep, &mut rng, thorough);
     let cfg = GenCfg::default();
     let mut done = 0;
     while done < n {
